@@ -516,7 +516,7 @@ func c12Gen(r *Rand, tier string, scale int, emit func(Fields)) {
 	}
 	limit := 12 * scale // quick: 3600 transitions from the first states in breadth-first order
 	if tier == "thorough" {
-		limit = 400000
+		limit = 150000
 	}
 	c12Closure(limit, emit)
 	for _, c := range c12Scenarios() {
